@@ -41,9 +41,9 @@ def main():
     try:
         # demonstration files: everything in the mutation dir except patch/meta/TASK
         demos = [f for f in os.listdir(mdir) if f not in ("patch.diff", "meta.json", "TASK.txt")]
-        demo_cmd = meta.get("demo_cmd", "").replace("/tmp/mut_%s" % meta["property"], wt)
+        demo_cmd = meta.get("demo_cmd", "").replace(os.environ.get("SEED_WT", "/tmp/mut_%s" % meta["property"]), wt)
         # place demo files where the agent had them: look them up in its worktree
-        src_wt = "/tmp/mut_%s" % meta["property"]
+        src_wt = os.environ.get("SEED_WT", "/tmp/mut_%s" % meta["property"])
         rc, o = sh("git apply %s" % patch, cwd=wt)
         out["confirmation"]["patch_applies"] = rc == 0
         rc, o = sh("cargo test --offline --workspace --no-fail-fast 2>&1 | grep -E 'test result|FAILED|^error' | sort | uniq -c", cwd=wt)
